@@ -14,8 +14,9 @@
   Lemmas: `Proofs/MapEffects.lean` (namespace `Eff`).  Throughout, `S.enrKey pk` is the name of the
   signer's public-key entry and `pubValue S pk` the RLP string stored under it.
 
-  Every theorem is about an arbitrary key type `S : Scheme`; `S.Lawful` is used only by the two
-  theorems about `set_public_key` with the signer's own key.
+  Every theorem is about an arbitrary key type `S : Scheme`; `S.Lawful` (proved for the four
+  built-in key types in `Props/C11.lean`) and the per-key length bound `KeyOK S pk` are used only
+  by the theorems about `set_public_key` with the signer's own key.
 -/
 import EnrVerif.Proofs.MapEffects
 
@@ -315,22 +316,22 @@ theorem C08_build_untouched {S : Scheme} {b : Builder} {pk : S.PK} {o : Option B
     builder or an update produced; a *decoded* record may store e.g. an uncompressed secp256k1 key,
     for which the theorem needs `Eff.setPublicKey_own_error` with its `hread` hypothesis). -/
 theorem C08_setPublicKey_own_succeeds {S : Scheme} (hL : S.Lawful) {r : Record} {pk : S.PK}
-    {e : EnrErr} (hv : Valid S r) (hpk : S.enrToPublic r.content = .ok pk)
+    {e : EnrErr} (hk : KeyOK S pk) (hv : Valid S r) (hpk : S.enrToPublic r.content = .ok pk)
     (hstored : Map.lookup r.content (S.enrKey pk) = some (pubValue S pk))
     (h : prepare S r (.setPublicKey pk) pk = .error e) : e = .exceedsMaxSize ∨ e = .seqTooHigh :=
-  setPublicKey_own_error hL hv.id_v4 (checkSigningKey_own hv.content.1 hpk hstored) h
+  setPublicKey_own_error hL hk hv.id_v4 (checkSigningKey_own hv.content.1 hpk hstored) h
 
 /-- … and the content does not change (`Map.insert_idem`); the call succeeds as soon as the
     sequence number can be incremented, the signer answers, and the re-signed record fits. -/
 theorem C08_setPublicKey_own_ok {S : Scheme} (hL : S.Lawful) {r : Record} {pk : S.PK} {sig : Bytes}
-    (hv : Valid S r) (hpk : S.enrToPublic r.content = .ok pk)
+    (hk : KeyOK S pk) (hv : Valid S r) (hpk : S.enrToPublic r.content = .ok pk)
     (hstored : Map.lookup r.content (S.enrKey pk) = some (pubValue S pk))
     (hseq : r.seq + 1 < 2 ^ 64)
     (hfinal : (⟨r.seq + 1, nodeIdOf S pk, r.content, sig⟩ : Record).size ≤ 300) :
     step S r (.setPublicKey pk) pk (some sig) =
       (.ok .unit, ⟨r.seq + 1, nodeIdOf S pk, r.content, sig⟩) := by
   have hidem := withPubkey_idem hv.content.1 hstored
-  have := setPublicKey_own_ok hL (r := r) (pk := pk) (sig := sig) hv.id_v4
+  have := setPublicKey_own_ok hL (r := r) (pk := pk) (sig := sig) hk hv.id_v4
     (checkSigningKey_own hv.content.1 hpk hstored) hseq
     (by rw [hidem]; exact hv.size_le) (by rw [hidem]; exact hfinal)
   rw [hidem] at this
@@ -339,13 +340,13 @@ theorem C08_setPublicKey_own_ok {S : Scheme} (hL : S.Lawful) {r : Record} {pk : 
 /-- A convenient sufficient condition: a signature of the old length (not 1 byte) and two bytes of
     room for the incremented sequence number. -/
 theorem C08_setPublicKey_own_ok' {S : Scheme} (hL : S.Lawful) {r : Record} {pk : S.PK} {sig : Bytes}
-    (hv : Valid S r) (hpk : S.enrToPublic r.content = .ok pk)
+    (hk : KeyOK S pk) (hv : Valid S r) (hpk : S.enrToPublic r.content = .ok pk)
     (hstored : Map.lookup r.content (S.enrKey pk) = some (pubValue S pk))
     (hseq : r.seq + 1 < 2 ^ 64) (hl : sig.length = r.sig.length) (h1 : r.sig.length ≠ 1)
     (hroom : r.size + 2 ≤ 300) :
     step S r (.setPublicKey pk) pk (some sig) =
       (.ok .unit, ⟨r.seq + 1, nodeIdOf S pk, r.content, sig⟩) := by
-  apply C08_setPublicKey_own_ok hL hv hpk hstored hseq
+  apply C08_setPublicKey_own_ok hL hk hv hpk hstored hseq
   have e1 := Sz.size_sig_len (⟨r.seq + 1, nodeIdOf S pk, r.content, sig⟩ : Record)
     ({ r with seq := r.seq + 1 } : Record) hl (by simp only; omega) rfl rfl
   have e2 := Sz.size_bump_le r hseq
